@@ -163,6 +163,22 @@ func ruleR27R28(c *Ctx) {
 				})
 			}
 		}
+		// yield called from a nested closure (a recursive walk): the stop discipline then depends on how
+		// every caller of that closure treats its result, which this rule does not follow
+		ast.Inspect(u.Body, func(x ast.Node) bool {
+			lit, ok := x.(*ast.FuncLit)
+			if !ok {
+				return true
+			}
+			ast.Inspect(lit.Body, func(z ast.Node) bool {
+				if call := isYieldCall(z); call != nil {
+					c.r.undecided("R28", fmt.Sprintf("%s yield called from a nested closure", u.Name), c.m.pos(call.Pos()),
+						"yield is called inside a nested (recursive) closure: whether every loop around the recursive calls stops once yield returned false is not decided by this rule – an explicit stack in the sequence closure itself is the form the rule can follow", props...)
+				}
+				return true
+			})
+			return false
+		})
 		// the yield function must not escape into another call (except passing it on as the
 		// consumer of an inner sequence is not done in this code base)
 	}
